@@ -416,16 +416,18 @@ func envSubstWithOptions() yqAction {
 		noEmpty := hasOptionParameter(value, "ne")
 		noUnset := hasOptionParameter(value, "nu")
 		failFast := hasOptionParameter(value, "ff")
-		envsubstOpType.Type = "ENVSUBST"
+		// a descriptor of its own: the name depends on the options and the shared one must stay as it is
+		opType := *envsubstOpType
+		opType.Type = "ENVSUBST"
 		prefs := envOpPreferences{NoUnset: noUnset, NoEmpty: noEmpty, FailFast: failFast}
 		if noEmpty {
-			envsubstOpType.Type = envsubstOpType.Type + "_NO_EMPTY"
+			opType.Type = opType.Type + "_NO_EMPTY"
 		}
 		if noUnset {
-			envsubstOpType.Type = envsubstOpType.Type + "_NO_UNSET"
+			opType.Type = opType.Type + "_NO_UNSET"
 		}
 
-		op := &Operation{OperationType: envsubstOpType, Value: envsubstOpType.Type, StringValue: value, Preferences: prefs}
+		op := &Operation{OperationType: &opType, Value: opType.Type, StringValue: value, Preferences: prefs}
 		return &token{TokenType: operationToken, Operation: op}, nil
 	}
 }
